@@ -1,0 +1,22 @@
+//go:build verif
+
+package geom
+
+// VerifFit and VerifSplit, when set, observe the recursion of FitSpline: one Fit event per attempt
+// (length of the sub-path, whether a contained curve was found) and one Split event per subdivision.
+var (
+	VerifFit   func(pathLen int, ok bool)
+	VerifSplit func(pathLen, k int)
+)
+
+func verifFit(pathLen int, ok bool) {
+	if VerifFit != nil {
+		VerifFit(pathLen, ok)
+	}
+}
+
+func verifSplit(pathLen, k int) {
+	if VerifSplit != nil {
+		VerifSplit(pathLen, k)
+	}
+}
